@@ -45,7 +45,7 @@ func TestCheck(t *testing.T) {
 	cfg := mon.Load(ID)
 	rep := mon.NewReporter(cfg, "fault_enumeration",
 		"generated specs (all modes, nesting depth <=2/3, mixed native paradigms, Pipe/array producers); for each spec EVERY node the reference executes is made, in turn, to return a sentinel error, return a custom error type, panic with a string / an error / a nil dereference, put an error item in the middle of its output stream, or stream through a converter that panics (the framework's forwarding goroutine when merged); pairs of nodes of one step fail together; paradigms Invoke + one other (quick) / all four (thorough); cyclic graphs hit compile-time and call-time step limits; runs are cancelled before the call and from inside a node. Oracle (public API only): the run fails (never succeeds, never panics on the caller, never hangs — quiescence monitor — never kills the child process); a failure raised by the node call itself names the full node path through nested graphs in order; errors.Is/As recover the sentinel / custom error; errors.Is(err, ErrExceedMaxSteps) and errors.Is(err, context.Canceled) hold. Non-trivial: a fault in a node with >=1 other executed node; distinct = (spec, input, victim(s), fault, paradigm). "+
-			"Added, on graphs built directly on the public API (stages of I/S/C/T lambdas, nested graphs / chains / workflows, fan-out to 2-4 consumers, fan-in, keyed nodes, stream branches; all four paradigms): (a) a Streamable / Transformable node puts an error item at EVERY position of its output stream, or streams through a converter (schema.StreamReaderWithConvert) that panics on some chunk - the run must fail with an error (never a panic on the caller or inside Recv on a goroutine a healthy node started), errors.Is/As reach the item's error value, and the error names the failing node's full path whoever read the item first (the caller from the output stream, a streaming node, a value-only node, a node that returns what it read, a fan-in, a keyed node, a branch condition, a nested graph); (b) a Lambda or a tool (invokable / streamable, in a tools node) runs another compiled runnable or a ReAct agent in any paradigm, 1-3 levels deep, and fails - at call time or by an error item - with its own error around the inner run's error (pointer / value type with Unwrap, %w, two %w, errors.Join either order, Unwrap() []error, three layers; a remembered error returned again), the innermost run failing by error / custom error / panic / mid-stream item / converter panic / step limit (compile or call option) / cancellation of its own context / an agent's tool or model: errors.Is reaches the error value of EVERY calling node and the innermost cause (sentinel, custom type, ErrExceedMaxSteps, context.Canceled), and the path leads from the outermost calling node to the innermost failing node.",
+			"Added, on graphs built directly on the public API (stages of I/S/C/T lambdas, nested graphs / chains / workflows, fan-out to 2-4 consumers, fan-in, keyed nodes, stream branches; all four paradigms): (a) a Streamable / Transformable node puts an error item at EVERY position of its output stream, or streams through a converter (schema.StreamReaderWithConvert) that panics on some chunk - the run must fail with an error (never a panic on the caller or inside Recv on a goroutine a healthy node started), errors.Is/As reach the item's error value, and the error names the failing node's full path whoever read the item first (the caller from the output stream, a streaming node, a value-only node, a node that returns what it read, a fan-in, a keyed node, a branch condition, a nested graph); (b) a Lambda or a tool (invokable / streamable, in a tools node) runs another compiled runnable or a ReAct agent in any paradigm, 1-3 levels deep, and fails - at call time or by an error item - with its own error around the inner run's error (pointer / value type with Unwrap, %w, two %w, errors.Join either order, Unwrap() []error, three layers; a remembered error returned again), the innermost run failing by error / custom error / panic / mid-stream item / converter panic / step limit (compile or call option) / cancellation of its own context / an agent's tool or model: errors.Is reaches the error value of EVERY calling node and the innermost cause (sentinel, custom type, ErrExceedMaxSteps, context.Canceled), and the path leads from the outermost calling node to the innermost failing node. (c) panic values (panic_value_test.go): in a graph of 0-3 nested levels (DAG / Pregel per level) a single Lambda (I/S/C/T), one or two of 2-4 parallel Lambdas, or one or two of 1-4 calls of a tools node panic with a drawn VALUE - string, int, plain / custom error, io.EOF, errors wrapping io.EOF / context.Canceled / ErrExceedMaxSteps, runtime errors, compose.InterruptAndRerun bare and wrapped (%w, error type with cause, errors.Join, two layers), the error of a run of its own that interrupts (before / after a node, by a node asking to be rerun, inside a subgraph; with or without checkpoint id; run inside the body or handed in; bare or wrapped) - with no checkpoint store, store + id, or store without id, under Invoke, Stream and Collect or Transform: the call ends with an error that compose.ExtractInterruptInfo does not take for an interrupt, writes no checkpoint, names the panicking node's full path and tells of a panic.",
 		[]string{"a lazily failing stream (error item) is only required to fail the run when the node's data reaches END", "in eager mode only ancestors of END must have been collected", "a panic value is not required to be unwrappable, only contained"},
 		300)
 	defer func() {
@@ -57,6 +57,8 @@ func TestCheck(t *testing.T) {
 	rep.Require("converter_panic_runs", 50)
 	rep.Require("nested_run_own_errors_reached", 100)
 	rep.Require("stream_fault_read_by_the_caller_as_an_item", 20)
+	rep.Require("panic_value_runs_with_a_value_of_the_interrupt_family", 50)
+	rep.Require("panic_value_runs_with_the_interrupt_error_of_a_nested_run", 10)
 	ctx := context.Background()
 	n := int64(cfg.Pick(50, 120))
 	rep.Cases(n, func(idx int64, rng *mon.Rand) {
@@ -68,6 +70,9 @@ func TestCheck(t *testing.T) {
 		}
 		for k := 0; k < 3; k++ {
 			wrapCase(ctx, rep, pub.Sub(fmt.Sprint("nested-run", k)), cfg)
+		}
+		for k := 0; k < 3; k++ { // panic_value_test.go: what a node body / tool call panics WITH
+			panicValueCase(ctx, rep, pub.Sub(fmt.Sprint("panic-value", k)), cfg)
 		}
 		if os.Getenv("C13_ONLY") != "" { // debugging aid: only the sub-workloads above
 			return
